@@ -268,7 +268,7 @@ impl Property for C13 {
         "C13"
     }
     fn rule(&self) -> String {
-        "all program families (deep nests up to depth 400, wide programs up to ~20 kB) x width x level 0..3, every case in the release and the debug-assertions build. total: ir parse+optimize, both bytecode translations, IrInterpreter/BcInterpreter/BaseJitCompiler::create and print_mc in the four (limit, safe) combinations must return (panic, abort, stack overflow = violation). no blow-up: rendered IR and both bytecodes stay below 64 n^2 + 4096 characters for an n byte source (time is used only in the extreme: a case that does not come back within 30 s and again within 240 s alone - compilation normally takes milliseconds - is reported as `compile-hang`); for the chain family (1 case in 13: six cells, one round body - seven templates such as p = copy(p)*copy(p), (p+u)(p+v), alternating p*q, or 2..6 random copy/move/multiply ops - repeated 4..48 times) the compiled size is measured for 2, 3, 4, ... rounds up to the case's count or the first output above 4 MiB, and a local degree ln(s_b/s_a)/ln(b/a) > 8 between the last two points on an output of at least 1 MiB is reported as `blow-up`, as is a measurement that does not finish in 60 s. deterministic: (i) everything is rendered, up to 3 other programs are compiled at all levels, everything is rendered again - byte-identical (every std HashMap instance has its own seed, so order dependence shows); (ii) on a 4% sample two fresh processes started with ASLR disabled must print identical digests. reusable: each compiling executor runs an interrupted execute_limited(3), then execute_limited(50000) three times on fresh contexts (identical logs and flags; the interrupted log is a prefix) and, when the canonical run halts, execute three times (log equals the reference). Non-trivial: bytecode generation allocated >= 3 temporaries (the hash-map-iterating paths ran) or nesting depth >= 50; distinct = distinct (program, width, level)".into()
+        "all program families (deep nests up to depth 400, wide programs up to ~20 kB) x width x level 0..3, every case in the release and the debug-assertions build. total: ir parse+optimize, both bytecode translations, IrInterpreter/BcInterpreter/BaseJitCompiler::create and print_mc in the four (limit, safe) combinations must return (panic, abort, stack overflow = violation). no blow-up: rendered IR and both bytecodes stay below 64 n^2 + 4096 characters for an n byte source (time is used only in the extreme: a case that does not come back within 30 s and again within 240 s alone - compilation normally takes milliseconds - is reported as `compile-hang`); for the chain family (1 case in 13: six cells, one round body - seven templates such as p = copy(p)*copy(p), (p+u)(p+v), alternating p*q, or 2..6 random copy/move/multiply ops - repeated 4..48 times) the compiled size is measured for 2, 3, 4, ... rounds up to the case's count or the first output above 4 MiB, and a local degree ln(s_b/s_a)/ln(b/a) > 8 between the last two points on an output of at least 1 MiB is reported as `blow-up`, as is a measurement that finishes neither in 60 s nor, repeated alone, in 300 s. deterministic: (i) everything is rendered, up to 3 other programs are compiled at all levels, everything is rendered again - byte-identical (every std HashMap instance has its own seed, so order dependence shows); (ii) on a 4% sample two fresh processes started with ASLR disabled must print identical digests. reusable: each compiling executor runs an interrupted execute_limited(3), then execute_limited(50000) three times on fresh contexts (identical logs and flags; the interrupted log is a prefix) and, when the canonical run halts, execute three times (log equals the reference). Non-trivial: bytecode generation allocated >= 3 temporaries (the hash-map-iterating paths ran) or nesting depth >= 50; distinct = distinct (program, width, level)".into()
     }
     fn assumptions(&self) -> Vec<String> {
         vec!["machine code embeds addresses of runtime functions, so cross-process comparison runs with ASLR disabled (personality ADDR_NO_RANDOMIZE)".into(), "'no super-polynomial blow-up' is checked through a size bound that sat >= 57x above everything observed at design time; wall-clock time is not a correctness signal".into()]
@@ -300,7 +300,16 @@ impl Property for C13 {
             // growth with the round count first: it recognises an exponential family while compiling is still cheap
             let (ch2, bits, level) = (ch.clone(), c.bits, c.level);
             let mut scratch = Stats::default();
-            let g = verdict::in_child(std::time::Duration::from_secs(60), &mut scratch, move || with_cell!(bits, C, chain_growth::<C>(&ch2, level)));
+            let mut g = verdict::in_child(std::time::Duration::from_secs(60), &mut scratch, {
+                let ch2 = ch2.clone();
+                move || with_cell!(bits, C, chain_growth::<C>(&ch2, level))
+            });
+            if matches!(&g, Outcome::Inconclusive(w) if w == "timeout") && !crate::judge::FAST_REJECT.load(std::sync::atomic::Ordering::Relaxed) && !crate::judge::HANG_SHRINK.load(std::sync::atomic::Ordering::Relaxed) {
+                // every step is capped at 4 MiB of output and normally takes well under a second; before this is
+                // called a blow-up it gets five more minutes on its own
+                scratch = Stats::default();
+                g = verdict::in_child(std::time::Duration::from_secs(300), &mut scratch, move || with_cell!(bits, C, chain_growth::<C>(&ch2, level)));
+            }
             match g {
                 Outcome::Pass { .. } => {
                     for (k, v) in scratch.classes.iter() {
@@ -310,7 +319,7 @@ impl Property for C13 {
                         stats.max(k, *v);
                     }
                 }
-                Outcome::Inconclusive(w) if w == "timeout" => return Outcome::Fail(Fail { kind: "blow-up".into(), detail: format!("measuring the growth of a {} byte round body (sizes capped at 4 MiB per step) did not finish within 60 s at i{} -O{}", ch.body.len(), c.bits, c.level), cfg: None }),
+                Outcome::Inconclusive(w) if w == "timeout" => return Outcome::Fail(Fail { kind: "blow-up".into(), detail: format!("measuring the growth of a {} byte round body (sizes capped at 4 MiB per step) did not finish within 60 s, nor within 300 s when repeated alone, at i{} -O{}", ch.body.len(), c.bits, c.level), cfg: None }),
                 o => return o,
             }
         }
